@@ -103,6 +103,7 @@ def setup_frontend():
 
 
 _SNAP = {}
+_CLASS_SNAP = {}
 
 
 def _repo_modules():
@@ -120,6 +121,10 @@ def snapshot_repo_state():
             continue
         g = vars(mod)
         _SNAP[name] = (set(g), {k: (type(v), v.copy()) for k, v in g.items() if type(v) in (dict, list, set)})
+        for k, v in list(g.items()):
+            # class-level containers of classes defined in this module are process-wide state as well
+            if isinstance(v, type) and getattr(v, "__module__", None) == name and v not in _CLASS_SNAP:
+                _CLASS_SNAP[v] = {a: (type(x), x.copy()) for a, x in vars(v).items() if type(x) in (dict, list, set)}
 
 
 def restore_repo_state():
@@ -137,6 +142,12 @@ def restore_repo_state():
             del g[k]  # data a previous run added (lazily imported submodules, functions and classes are left alone)
         for k, (tp, copy_) in containers.items():
             cur = g.get(k)
+            if type(cur) is tp and cur != copy_:
+                cur.clear()
+                cur.update(copy_) if tp is not list else cur.extend(copy_)
+    for cls_, attrs in _CLASS_SNAP.items():
+        for a, (tp, copy_) in attrs.items():
+            cur = vars(cls_).get(a)
             if type(cur) is tp and cur != copy_:
                 cur.clear()
                 cur.update(copy_) if tp is not list else cur.extend(copy_)
